@@ -113,9 +113,9 @@ Proof.
   - reflexivity.
   - reflexivity.
   - reflexivity.
-  - (* TNeg *) intros t IH c H. cbn [map_strs toks]. rewrite opc_map, neg_kind_map, !topnd_map.
+  - (* TNeg *) intros t IH c H. cbn [map_strs toks]. rewrite opc_map, neg_kind_map.
     eapply rmap_bind_cong; [apply IH; rewrite sq1_opc; exact H|].
-    intros a' a Ha. rewrite (tstarts_minus_cong _ _ (topnd_cong SNeg t _ _ Ha)). sh. congruence.
+    intros a' a Ha. rewrite !topnd_map. rewrite (tstarts_minus_cong _ _ (topnd_cong SNeg t _ _ Ha)). sh. congruence.
   - (* TArith *) intros op l IHl r IHr alias c H. cbn [map_strs toks]. rewrite !top_op_map, !opc_map.
     eapply rmap_bind_cong; [apply IHl; rewrite sq1_opc; exact H|]. intros a' a Ha.
     eapply rmap_bind_cong; [apply IHr; rewrite sq1_opc; exact H|]. intros b' b Hb.
